@@ -37,6 +37,18 @@ Proof.
   rewrite helper_name_prefix, prefix_sapp in F. discriminate.
 Qed.
 
+(** Whatever fields (of whatever classes) a Converter object served before, the name it
+    gets for field [n] is the name of [n]. *)
+Lemma converter_name_history_independent_l : forall h memo n,
+  fst (current_naming (use_history current_naming memo h) n) = helper_name RConverter n.
+Proof. intros. reflexivity. Qed.
+
+Lemma memo_naming_refuted_l :
+  exists h n m, n <> m /\
+    fst (memo_naming (use_history memo_naming None h) n) = fst (memo_naming (use_history memo_naming None h) m)
+    /\ fst (memo_naming (use_history memo_naming None h) m) <> helper_name RConverter m.
+Proof. exists ["a"], "a", "b". repeat split; discriminate. Qed.
+
 Example helper_name_examples :
   map (fun r => helper_name r "x") all_roles =
   ["__attr_repr_x"; "__attr_key_x"; "__attr_factory_x"; "__attr_converter_x"; "__attr_validator_x";
